@@ -222,6 +222,25 @@ theorem prods_length_step {c : Cfg} {s s' : St} {a : Act} (hs : step c s a = som
     s'.prods.length = s.prods.length := by
   cases a <;> simp only [step] at hs <;> (repeat' (split at hs)) <;> cases hs <;> simp
 
+theorem run_prods_length {c : Cfg} (as : List Act) : ∀ {s s' : St},
+    run c s as = some s' → s'.prods.length = s.prods.length := by
+  induction as with
+  | nil => intro s s' hr; simp [run] at hr; subst hr; rfl
+  | cons a as ih =>
+    intro s s' hr
+    simp only [run, List.foldlM_cons] at hr
+    cases hst : step c s a with
+    | none => simp [hst] at hr
+    | some s1 =>
+      simp only [hst] at hr
+      rw [ih hr, prods_length_step hst]
+
+/-- the number of producers never changes: one per private source -/
+theorem reachable_prods_length {c : Cfg} {privs : List (List Nat)} {shared : List Nat} {k1 k2 : Nat} {s : St}
+    (h : Reachable c privs shared k1 k2 s) : s.prods.length = privs.length := by
+  obtain ⟨as, hr⟩ := h
+  rw [run_prods_length as hr]; simp [init]
+
 theorem measure_step {c : Cfg} {s s' : St} {a : Act} (hs : step c s a = some s') : measure s' < measure s := by
   cases a <;> simp only [step] at hs <;> (repeat' (split at hs)) <;> cases hs
   all_goals (try (simp_all [measure, CState.rank, KState.rank] <;> omega))
